@@ -401,6 +401,8 @@ preserving('d6-structural-skip-by-name', ['C03'], [(M + 'sim/circuit.py', "     
 preserving('tr1-is-none-test', ['C17'], [(M + 'utils.py', "    if not isinstance(keep_index, collections.abc.Iterable):\n        keep_index = {int(keep_index)}", "    if keep_index is None:\n        keep_index = set(range(len(dim)))\n    if not isinstance(keep_index, collections.abc.Iterable):\n        keep_index = {int(keep_index)}")])
 preserving('zs1-clamp-not-snap', ['C13'], [(M + 'entangle/eof.py', "    ret = np.maximum(2*EVL[-1]-EVL.sum(), 0)\n    return ret", "    ret = 2*EVL[-1]-EVL.sum()\n    if ret < 0:\n        ret = 0.0\n    return ret")])
 preserving('ln1-conj-of-operator', ['C12'], [(M + 'channel/_internal.py', "    ret = (op @ rho.reshape(-1)).reshape(dim1, dim1)\n    return ret", "    op_dag = op.T.conj()\n    ret = (op_dag.T.conj() @ rho.reshape(-1)).reshape(dim1, dim1)\n    return ret")])
+breaking('DTF1-complex-into-float-buffer', {'C18': 'DTF1'}, edit=[(M + 'state/_internal.py', "    ret[2**np.arange(n,dtype=np.int64)] = np.sqrt(1/n)", "    ret[2**np.arange(n,dtype=np.int64)] = np.exp(1j*np.pi/4)*np.sqrt(1/n)")])
+preserving('dtf1-real-part-into-float-buffer', ['C18'], [(M + 'state/_internal.py', "    ret[2**np.arange(n,dtype=np.int64)] = np.sqrt(1/n)", "    ret[2**np.arange(n,dtype=np.int64)] = (np.exp(1j*0)*np.sqrt(1/n)).real")])
 # ---- textual breaking edits, one per rule family
 breaking('S3-ambient-draw', {'C10': 'S3'}, edit=[(M + 'random/_internal.py', "tmp0 = np_rng.normal(size=(N0,dim))\n    tmp0 = tmp0 / np.linalg.norm", "tmp0 = np.random.normal(size=(N0,dim))\n    tmp0 = tmp0 / np.linalg.norm")])
 breaking('S4-unseeded-receiver', {'C10': 'S4'}, edit=[(M + 'random/_internal.py', "    np_rng = get_numpy_rng(seed)\n    assert dim>=2\n    tmp0 = np.triu(", "    np_rng = get_numpy_rng(seed)\n    assert dim>=2\n    np_rng = np.random.default_rng(dim)\n    tmp0 = np.triu(")])
